@@ -4,7 +4,7 @@
 set -e
 P="$1"; W="/var/tmp/b-$P"
 rm -rf "$W/verif"; mkdir -p "$W"
-rsync -a --exclude .git --exclude replay /verif/ "$W/verif/"
+rsync -a --exclude .git --exclude replay --exclude .work /verif/ "$W/verif/"
 if [ ! -d "$W/repo" ]; then
   git -C /repo worktree add -q -b "agent-$P" "$W/repo" HEAD
 fi
